@@ -7,6 +7,12 @@ ids = [json.loads(l)["id"] for l in open(os.path.join(ROOT, "properties.jsonl"))
 
 TECH = "deterministic whole-program simulation (std-facade substitution under a seeded scheduler) with fault injection; "
 CLAIMED = {
+    "C01": dict(
+        level="exploration", ref="DESIGN.md 5/C01",
+        text="Seeded generation of 1-30 command histories (incl. snapshot requests) against a plain-map oracle on a node booted by the real start_db, with the real background snapshot either between commands or released to race with them at lock granularity; sampling.",
+        note="versions/error texts/$connections not compared; simulated disk/clock/timer facades; shuttle SeqCst",
+        technique=TECH + "operation-by-operation comparison with a reference map, background snapshot as a scheduled concurrent task",
+    ),
     "C02": dict(
         level="exploration", ref="DESIGN.md 5/C02",
         text="Seeded search over lock-level interleavings of 2-3 concurrent sessions running the real process_request on a node booted by the real start_db, checked for linearizability against a versioned-register model plus the sequential version rules; sampling, not enumeration.",
